@@ -85,6 +85,20 @@ def judge(case, d, model):
                         'its function: %s' % d.get('LI2')))
         if d.get('SC2') != 'ok' or d.get('T3') != '=':
             bad.append(('not-a-fixpoint', 'the second print/scan round changes the text again (%s)' % d.get('SC2')))
+        if d.get('US', 'ok') != 'ok':
+            # the scan into USED contexts (round 3): a context that has scanned, read binaries, written and built modules before
+            hist, _, rest = d.get('US').partition(':')
+            if rest.startswith('ERR:'):
+                what = 'is rejected: ' + rest[4:]
+            else:
+                try:
+                    got = bytes.fromhex(rest).decode('latin-1')
+                except ValueError:
+                    got = rest
+                what = 'prints differently: ' + K.first_diff(K.canon_labels_text(t2), K.canon_labels_text(got))
+            bad.append(('scan-into-used-context-differs', 'MIR_scan_string of the text into a context with the history `%s` + a binary read '
+                        '(s = scan of the text, S = scan of a fixed text, b = module built through the API, r = binary read, w = write, '
+                        'o = output) %s' % (hist, what)))
         if 'X0' in d and d.get('X2') != d.get('X0'):
             bad.append(('exec-differs-after-scan', 'execution differs after the text round trip: %s vs %s' % (d.get('X0'), d.get('X2'))))
         if d.get('FR2', 'ok') != 'ok' and d.get('FR0', 'ok') == 'ok':
@@ -264,7 +278,7 @@ def replay(chk, path):
     r1, rm = run_cases(exes, [case])
     bad, info = judge(case, r1[0], rm[0])
     print('case:', case)
-    for k in ('build', 'SC', 'T2', 'S2', 'LI2', 'TN2', 'SC2', 'T3', 'X0', 'X2', 'FR0', 'FR2', 'CRASH'):
+    for k in ('build', 'SC', 'T2', 'S2', 'LI2', 'TN2', 'SC2', 'T3', 'X0', 'X2', 'FR0', 'FR2', 'US', 'CRASH'):
         v = r1[0].get(k, '-')
         print('  impl.%s = %s   model.%s = %s' % (k, v[:100], k, rm[0].get(k, '-')[:100]))
     for s, w in bad:
